@@ -287,30 +287,38 @@ def first_hops(tp):
     return [c + 1 for c, (a, b) in enumerate(tp["chans"]) if a == 0 or b == 0]
 
 
+def chans_of(tp, node):
+    return [c + 1 for c, (a, b) in enumerate(tp["chans"]) if a == node or b == node]
+
+
 def with_async(script, rng):
-    """A random schedule in which the payer's persister reports writes InProgress for a while (all of its channels or
-    some), the user reports them complete in any order, and the payer's channel configuration changes."""
+    """A random schedule in which the persister of the payer -- or of a forwarding node / the recipient -- reports
+    writes InProgress for a while (all of the node's channels or some), the node's user reports them complete in any
+    order, and the payer's channel configuration changes."""
     ops = script["ops"]
     if any(o["op"] == "restart" and o.get("use") == "stale" for o in ops) or len(ops) < 4:
         return script
     tp = topo(script["cfg"]["topo"], script["cfg"]["n"])
-    fh = first_hops(tp)
     out = list(ops)
+    # the nodes whose persistence is asynchronous in this run: mostly the payer, sometimes a node further along
+    others = [rng.randrange(1, tp["nodes"])] if rng.random() < 0.45 else []
     for _ in range(rng.randint(2, 7)):
         pos = rng.randrange(0, len(out) - 1)
         r = rng.random()
+        node = rng.choice(others) if others and rng.random() < 0.5 else 0
+        fh = chans_of(tp, node)
         if r < 0.35:
-            o = {"op": "persist_mode", "node": 0, "mode": "inprogress"}
+            o = {"op": "persist_mode", "node": node, "mode": "inprogress"}
             if rng.random() < 0.5:
                 o["chans"] = rng.sample(fh, rng.randint(1, len(fh)))
         elif r < 0.50:
-            o = {"op": "persist_mode", "node": 0, "mode": "completed"}
+            o = {"op": "persist_mode", "node": node, "mode": "completed"}
         elif r < 0.85:
-            o = {"op": "complete", "node": 0, "which": rng.choice(["oldest", "newest", "all", "all"])}
+            o = {"op": "complete", "node": node, "which": rng.choice(["oldest", "newest", "all", "all"])}
             if rng.random() < 0.4:
                 o["chan"] = rng.choice(fh)
         elif r < 0.95:
-            o = {"op": "config", "node": 0, "chan": rng.choice(fh)}
+            o = {"op": "config", "node": 0, "chan": rng.choice(first_hops(tp))}
             if rng.random() < 0.7:
                 o["max_dust"] = rng.choice([0, 0, 100000, 5000000])
         else:
@@ -434,13 +442,27 @@ def hcfail_script(rng):
     send = {"op": "send", "from": 0, "id": 1, "reg": 1, "paths": [tp["routes"][r] for r in rts], "amts": samts}
     if rng.random() < 0.4:
         send["retries"] = rng.choice([0, 1, 2])
+    # a second payment parked in the same holding cell (before or behind the first one): when the cell is freed one of
+    # them may leave while the other one is failed back in the same pass
+    mate = None
+    if rng.random() < 0.6:
+        mamt = rng.choice([1, 2, 3]) * MSAT + rng.randint(0, 999) * 1000 if rng.random() < 0.8 else rng.randint(2, 300) * 1000
+        mate = {"op": "send", "from": 0, "id": 2, "reg": 2, "paths": [tp["routes"][rts[x]]], "amts": [mamt]}
+        ops.append({"op": "reg", "node": dst, "reg": 2, "amt": mamt, "expiry": 3600, "method": rng.choice(["user", "ldk"])})
+    first = mate is not None and rng.random() < 0.5
+    if first:
+        ops.append(mate)
     ops.append(send)
+    if mate is not None and not first:
+        ops.append(mate)
     pays = [{"pid": 1, "reg": 1, "rts": rts, "send": send}]
+    if mate is not None:
+        pays.append({"pid": 2, "reg": 2, "rts": [rts[x]], "send": mate})
     if rng.random() < 0.25:
         ops += body(rng, tp, pays, rng.randint(1, 3))
         ops = [o for o in ops if o["op"] != "restart"]
     if unsend == "dust":
-        ops.append({"op": "config", "node": 0, "chan": c, "max_dust": rng.choice([0, 0, 1000])})
+        ops.append({"op": "config", "node": 0, "chan": c, "max_dust": rng.choice([0, 0, 1000, 100000])})
     elif unsend == "limit":
         ops += [{"op": "reg", "node": 0, "reg": 8, "amt": 2 * MSAT, "expiry": 3600},
                 {"op": "send", "from": peer, "id": 8, "reg": 8, "paths": [[c]], "amts": [2 * MSAT]},
@@ -973,16 +995,24 @@ def trace_stats(path):
         c[k] = c.get(k, 0) + n
     cur, sent, failed = None, {}, {}
     addseen, wipnow = set(), set()
+    burst, freed = None, {}     # the adds that left the payer right after a completion: chan -> set of hashes
     with open(path) as f:
         for ln in f:
             r = json.loads(ln)
             if r["run"] != cur:
                 addseen, wipnow = set(), set()
+                burst, freed = None, {}
                 if any(v > 1 for v in sent.values()):
                     inc("runs_with_repeated_PaymentSent")
                 if any(v > 1 for v in failed.values()):
                     inc("runs_with_repeated_PaymentFailed")
                 cur, sent, failed = r["run"], {}, {}
+            if burst is not None and not (r["ev"] in ("msg", "persist")):
+                burst = None
+            if r["ev"] == "complete" and r["node"] == 0:
+                burst = r["chan"]
+            elif burst is not None and r["ev"] == "msg" and r["kind"] == "update_add_htlc" and r["from"] == 0 and r["chan"] == burst:
+                freed.setdefault(burst, set()).add(r["hash"])
             e = r["ev"]
             if e == "event":
                 inc("ev_" + r["kind"])
@@ -1003,6 +1033,8 @@ def trace_stats(path):
                     if not r["initial"] and r["path"] and r["blamed"] == r["path"][0] and r["node"] == 0 and \
                             not any(k[0] == r["hash"] and k[1] == r["path"][0] for k in addseen):
                         inc("pathfailed_never_offered")       # failed inside the payer (freed from a holding cell, unsendable)
+                        if freed.get(r["path"][0], set()) - {r["hash"]}:
+                            inc("pathfailed_never_offered_beside_a_released_add")     # (a mixed release)
                     if r["initial"]:
                         inc("pathfailed_initial")
                         if wipnow:
@@ -1045,6 +1077,8 @@ def trace_stats(path):
                 inc(e)
                 if e == "persist":
                     wipnow.add((r["node"], r["chan"], r["id"]))
+                    if r["node"] != 0:
+                        inc("persist_not_payer")
                 elif e == "complete":
                     wipnow.discard((r["node"], r["chan"], r["id"]))
     return c
